@@ -2,6 +2,7 @@
   C07 — the sentence reports exactly the transmitted NMEA fields and raw payload.
 -/
 import AisVerif.Props.C08
+import AisVerif.Lemmas.Flags
 
 namespace AisVerif.C07
 open AisVerif Spec
@@ -172,5 +173,22 @@ theorem decode_off_no_message (cfg : Cfg) (st : PState) (line : Bytes) (f : Frag
           | panic p => simp only [afterVerify] at h; cases h
         · simp only [hf, Bool.false_eq_true, if_false, decodeInto_false, Res.map] at h
           cases h; exact hs
+
+/-! ### The decode flag is an argument of each call -/
+
+/-- **A line's result depends on the other lines through their bytes only, and on its own flag**: two histories
+    with the same lines before position `i` (whatever the flags of those lines, and whatever follows) give the
+    line at `i`, sent with the same flag, the same result. -/
+theorem result_depends_on_own_flag_only (cfg : Cfg) (st : PState) (a a' b b' : List (Bytes × Bool)) (l : Bytes) (d : Bool)
+    (ha : a.map (·.1) = a'.map (·.1)) :
+    (runD cfg st (a ++ (l, d) :: b)).1[a.length]? = (runD cfg st (a' ++ (l, d) :: b')).1[a'.length]? := by
+  rw [runD_result_at cfg false st a b l d, runD_result_at cfg false st a' b' l d, ha]
+
+/-- With decoding off on a line, the line's sentence carries no message - whatever flags the earlier lines
+    (the earlier fragments of its group among them) were sent with. -/
+theorem decode_off_no_message_flags (cfg : Cfg) (st : PState) (a b : List (Bytes × Bool)) (l : Bytes) (f : Frag)
+    (h : (runD cfg st (a ++ (l, false) :: b)).1[a.length]? = some (ok f)) : (Frag.sentence f).message = none := by
+  rw [runD_result_at cfg false st a b l false] at h
+  exact decode_off_no_message cfg _ l f (Option.some.inj h)
 
 end AisVerif.C07
